@@ -721,6 +721,13 @@ func hostileLiterals() []hostile {
 	// nested headers that each announce as many elements as bytes remain: the loops of all levels must stop at the first error
 	add("nested-counts-over-a-short-tail", rep("a49999{", 2000)+rep("n", 50000))
 	add("nested-map-counts-over-a-short-tail", rep("m24999{", 2000)+rep("n", 50000))
+	// many empty containers first, then a chain far deeper than the limit: whatever is counted per
+	// container must not be given back more often than it was taken
+	for _, empty := range []string{"a{}", "m{}", "e"} {
+		n := 1200000
+		add("empties-then-deep-chain-"+empty, "a"+strconv.Itoa(n+1)+"{"+rep(empty, n)+rep("a1{", n)+"n"+rep("}", n)+"}")
+	}
+	add("empty-objects-then-deep-chain", "c1\"A\"0{}a1200001{"+rep("o0{}", 1200000)+rep("a1{", 1200000)+"n"+rep("}", 1200000)+"}")
 	long := rep("x", 50000)
 	add("many-references-to-a-long-string", "a1001{s50000\""+long+"\""+rep("r1;", 1000)+"}")
 	add("many-references-to-long-bytes", "a1001{b50000\""+long+"\""+rep("r1;", 1000)+"}")
